@@ -1139,8 +1139,55 @@ def r108(facts, res):
     res.floor(R, 'block-comment terminators', n, 1)
 
 
+# ---------------------------------------------------------------------------------------------------------------------
+# R10.9 a string assembled chunk by chunk only grows
+def r109(facts, res):
+    """parse_string copies the text of a quoted string in chunks (one per escape).  The String it returns is only ever
+    appended to inside the scan loop; an assignment to it there throws away the chunks copied before the escape at hand, which
+    shows from the second escape on."""
+    R = 'R10.9'
+    P = 'cfgrammar::yacc::parser::YaccParser'
+    bs = [b for b in facts.lib_bodies(['cfgrammar']) if (b.impl_of or '').startswith(P) and b.name == 'parse_string' and b.kind != 'closure']
+    if len(bs) != 1:
+        return res.lost(R, 'YaccParser::parse_string not found')
+    b = bs[0]
+    loops = b.loops()
+    accs = [l for l, ty in enumerate(b.locals) if ty['ty'] == 'alloc::string::String' and b.name_of(l) and l > b.arg_count
+            and any(cname(t) in ('push_str', 'push') and t['args'] and b.op_root(t['args'][0])[0] == l for bb, t in b.calls())]
+    if not accs or not loops:
+        return res.lost(R, 'no String is assembled by appending in parse_string')
+    n = 0
+    for acc in accs:
+        n += 1
+        bad = []
+        napp = 0
+        for bb, t in b.calls():
+            if not t['args'] or op_local(t['args'][0]) is None or not any(bb in loops[h] for h in loops):
+                continue
+            if b.op_root(t['args'][0])[0] != acc or not b.lty(op_local(t['args'][0])).startswith('&mut '):
+                continue
+            if cname(t) in ('push_str', 'push', 'extend', 'write_str', 'write_fmt', 'reserve', 'deref_mut', 'as_mut_str'):
+                napp += cname(t) in ('push_str', 'push', 'extend', 'write_str', 'write_fmt')
+            else:
+                bad.append('line %s: `%s` on the string being assembled' % (t.get('line'), cname(t)))
+        for bb, _i, st in b.stmts():
+            if st['k'] == 'assign' and st['lhs']['l'] == acc and not st['lhs']['p'] and any(bb in loops[h] for h in loops):
+                bad.append('line %s: the string being assembled is assigned anew inside the scan loop: the chunks copied before this escape are dropped' % st.get('line'))
+        for bb in b.reachable():
+            t = b.term(bb)
+            if t['k'] == 'call' and t['dest']['l'] == acc and not t['dest']['p'] and any(bb in loops[h] for h in loops):
+                bad.append('line %s: the string being assembled is assigned the result of `%s` inside the scan loop: the chunks copied before this escape are dropped' % (t.get('line'), cname(t)))
+        key = 'chunks-appended:%s' % (b.name_of(acc) or acc)
+        if bad:
+            res.bad(R, key, loc_of(b), '; '.join(sorted(set(bad))[:2]))
+        else:
+            res.ok(R, key, loc_of(b), 'inside the scan loop the string is only appended to (%d append sites)' % napp)
+    res.floor(R, 'strings assembled in parse_string', n, 1)
+
+
 def run(facts, res):
     r107(facts, res)
+    r109(facts, res)
     r108(facts, res)
     r105(facts, res)
     r106(facts, res)
